@@ -1,17 +1,95 @@
 import EpdVerif.Drivers.Dsl
 import EpdVerif.Gen.Epd2in9_v2
-/-! model of `src/epd2in9_v2/mod.rs` (STUB: programs not yet transcribed) -/
+import EpdVerif.Gen.Type_a
+/-! model of `src/epd2in9_v2/mod.rs` -/
 namespace EpdVerif.Drivers.Epd2in9_v2
 open EpdVerif
 open EpdVerif.Gen.Epd2in9_v2
+open EpdVerif.Gen.Type_a
 
-def prog (_f : Feat) (_d : DState) : Op → Option (List Act)
+def W : Act := .wait IS_BUSY_LOW
+
+/-- `&t[a..b]` (constant tables only, always in range) -/
+def slice (t : Bytes) (a b : Nat) : Bytes := (t.drop a).take (b - a)
+
+/-- `set_ram_area`: asserts only, no wait -/
+def setRamArea (sx sy ex ey : Nat) : List Act :=
+  assertA (sx < ex) ++ assertA (sy < ey) ++
+  cmdData Command.SetRamXAddressStartEndPosition [shr8 sx 3, shr8 ex 3] ++
+  cmdData Command.SetRamYAddressStartEndPosition [u8 sy, shr8 sy 8, u8 ey, shr8 ey 8]
+
+/-- `set_ram_counter`: the X counter is sent as `x as u8` (no `>> 3` in this driver) -/
+def setRamCounter (x y : Nat) : List Act :=
+  [W] ++ cmdData Command.SetRamXAddressCounter [u8 x] ++
+  cmdData Command.SetRamYAddressCounter [u8 y, shr8 y 8]
+
+def useFullFrame : List Act := setRamArea 0 0 (WIDTH - 1) (HEIGHT - 1) ++ setRamCounter 0 0
+
+def setLutHelper (t : Bytes) : List Act :=
+  [W] ++ cmdData Command.WriteLutRegister t ++ [W]
+
+def init : List Act :=
+  [.reset 10000 2000, W, .cmd Command.SwReset, W] ++
+  cmdData Command.DriverOutputControl [0x27, 0x01, 0x00] ++
+  cmdData Command.DataEntryModeSetting [0x03] ++
+  setRamArea 0 0 (WIDTH - 1) (HEIGHT - 1) ++
+  cmdData Command.DisplayUpdateControl1 [0x00, 0x80] ++
+  setRamCounter 0 0 ++
+  [W] ++
+  setLutHelper (slice WS_20_30 0 153) ++
+  cmdData Command.WriteLutRegisterEnd (slice WS_20_30 153 154) ++
+  cmdData Command.GateDrivingVoltage (slice WS_20_30 154 155) ++
+  cmdData Command.SourceDrivingVoltage (slice WS_20_30 155 158) ++
+  cmdData Command.WriteVcomRegister (slice WS_20_30 158 159)
+
+def updateFrame (b : Bytes) : List Act := [W] ++ cmdData Command.WriteRam b
+
+def displayFrame : List Act :=
+  [W] ++ cmdData Command.DisplayUpdateControl2 [0xC7] ++ [.cmd Command.MasterActivation, W]
+
+def updateNewFrame (b : Bytes) : List Act :=
+  [W, .reset 10000 2000] ++
+  setLutHelper LUT_PARTIAL_2IN9 ++
+  cmdData Command.WriteOtpSelection [0x00, 0x00, 0x00, 0x00, 0x00, 0x40, 0x00, 0x00, 0x00, 0x00] ++
+  cmdData Command.BorderWaveformControl [0x80] ++
+  cmdData Command.DisplayUpdateControl2 [0xC0] ++
+  [.cmd Command.MasterActivation, W] ++
+  useFullFrame ++
+  cmdData Command.WriteRam b
+
+def displayNewFrame : List Act :=
+  [W] ++ cmdData Command.DisplayUpdateControl2 [0x0F] ++ [.cmd Command.MasterActivation, W]
+
+def prog (_f : Feat) (d : DState) : Op → Option (List Act)
+  | .new => some init
+  | .wake => some init
+  | .sleep => some ([W] ++ cmdData Command.DeepSleepMode [0x01])
+  | .upd b => some (updateFrame b)
+  | .part b x y w h =>
+    some ([W] ++ setRamArea x y (x + w) (y + h) ++ setRamCounter x y ++ cmdData Command.WriteRam b)
+  | .disp => some displayFrame
+  | .updisp b => some (updateFrame b ++ displayFrame)
+  | .clear =>
+    some ([W, .cmd Command.WriteRam, .rep (byteValue d.bg) (WIDTH / 8 * HEIGHT),
+           .cmd Command.WriteRam2, .rep (byteValue d.bg) (WIDTH / 8 * HEIGHT)])
+  | .bg c => some [.upd (fun d => { d with bg := c })]
+  | .lut r =>
+    some (match r with | some m => [Act.upd (fun d => { d with refresh := m })] | none => [])
+  | .wait => some [W]
+  -- QuickRefresh
+  | .old b => some ([W] ++ cmdData Command.WriteRam b ++ cmdData Command.WriteRam2 b)
+  | .newf b => some (updateNewFrame b)
+  | .dispnew => some displayNewFrame
+  | .updispnew b => some (updateNewFrame b ++ displayNewFrame)
+  | .pold _ _ _ _ _ => some [.panic]
+  | .pnew _ _ _ _ _ => some [.panic]
+  | .pclear _ _ _ _ => some [.panic]
   | _ => none
 
 def panel (f : Feat) : Panel :=
   { name := "epd2in9_v2", width := WIDTH, height := HEIGHT, single := SINGLE_BYTE_WRITE,
     busyLow := IS_BUSY_LOW, family := .ssd, colors := 2,
-    init := { bg := DEFAULT_BACKGROUND_COLOR },
+    init := { bg := DEFAULT_BACKGROUND_COLOR, refresh := .full },
     prog := prog f,
     ctrl := .ssd (Ssd.por false 22 296) }
 
